@@ -112,6 +112,23 @@ func (m *Machine) binop(op token.Token, x, y Val, xt, rt types.Type, in ssa.Inst
 // named operands gets the expression as its name, so that byte layouts can be
 // compared symbolically.
 func (m *Machine) arith(op token.Token, a, b Int, rt types.Type) Val {
+	// algebraic identities keep the operand (and its symbolic name) unchanged
+	if b.IsConst() && !a.IsConst() {
+		switch {
+		case b.Lo == 0 && (op == token.ADD || op == token.SUB || op == token.OR || op == token.XOR || op == token.SHL || op == token.SHR || op == token.AND_NOT):
+			return a
+		case b.Lo == 1 && (op == token.MUL || op == token.QUO):
+			return a
+		}
+	}
+	if a.IsConst() && !b.IsConst() {
+		switch {
+		case a.Lo == 0 && (op == token.ADD || op == token.OR || op == token.XOR):
+			return b
+		case a.Lo == 1 && op == token.MUL:
+			return b
+		}
+	}
 	if a.L != nil || b.L != nil {
 		if r, ok := laneArith(op, a, b, rt); ok {
 			return r
